@@ -2173,3 +2173,43 @@ def c12_autocorr_dask(tchunks, lead, nodata, dtype="int16"):
             if not same:
                 bad.append({"chunks": chunks, "scheduler": sched, "dims": list(got.dims), "dtype": str(got.dtype)})
     return {"violates": bool(bad), "bad": bad[:4]}
+
+
+def c16_dask_names(vary):
+    """Two lazily built zonal means with the same explicit name that differ in the zone raster / the cube / the dtype, computed in ONE
+    dask graph, against the in-memory results."""
+    import xarray as xr
+    import dask
+    import hdc.algo  # noqa
+    rng = np.random.default_rng(160)
+    T, R, Cn, nz = 3, 6, 6, 3
+    cube = rng.integers(1, 1000, size=(T, R, Cn)).astype("int16")
+    cube2 = (cube // 2 + 7).astype("int16")
+    z1 = rng.integers(0, nz, size=(R, Cn)).astype("uint8")
+    z2 = np.roll(z1, 2, axis=1).copy()
+    z2[:2, :] = (z2[:2, :] + 1) % nz
+
+    def da_of(c):
+        return xr.DataArray(c, dims=("time", "y", "x"), coords={"time": [0, 1, 2]}, attrs={"nodata": -9999})
+
+    def zo(z):
+        return xr.DataArray(z, dims=("y", "x"), attrs={"nodata": 255})
+    bad = []
+    pairs = [((cube, z1, "float32"), (cube, z2, "float32")), ((cube, z1, "float32"), (cube2, z1, "float32")), ((cube, z1, "float32"), (cube, z1, "float64"))]
+    for (ca, za, da_), (cb, zb, db_) in pairs:
+        ea = da_of(ca).hdc.zonal.mean(zo(za), list(range(nz)), dtype=da_, name="zm").values
+        eb = da_of(cb).hdc.zonal.mean(zo(zb), list(range(nz)), dtype=db_, name="zm").values
+        for chunks in ({"time": 1, "y": -1, "x": -1}, {"time": -1, "y": -1, "x": -1}):
+            xa = da_of(ca).chunk(chunks) if cb is ca else da_of(ca).chunk(chunks)
+            xb = xa if cb is ca else da_of(cb).chunk(chunks)
+            la = xa.hdc.zonal.mean(zo(za), list(range(nz)), dtype=da_, name="zm")
+            lb = xb.hdc.zonal.mean(zo(zb), list(range(nz)), dtype=db_, name="zm")
+            try:
+                ga, gb = dask.compute(la, lb, scheduler="synchronous")
+            except Exception as e:  # noqa
+                bad.append({"chunks": chunks, "raised": f"{type(e).__name__}: {e}"[:160]})
+                continue
+            for g, e_, tag in ((ga, ea, "first"), (gb, eb, "second")):
+                if not np.array_equal(np.asarray(g.values, dtype="float64"), np.asarray(e_, dtype="float64"), equal_nan=True):
+                    bad.append({"chunks": chunks, "which": tag, "differs_from_in_memory": True})
+    return {"violates": bool(bad), "bad": bad[:4], "vary": vary}
